@@ -10,7 +10,11 @@ LEVEL_TEXT = ("Coq theorems over a bit-exact binary64 (PrimFloat/Flocq) and exac
               "frequency in [0,1] and exactly 0/1 iff the locus is fixed for every size up to 2^53 copies, afixed = not apoly = count-based flag, "
               "genotype classes = ploidy+1 and column totals = ntaxa, phased counts = counts of the unphased projection, phased allele-test "
               "polymorphism flag = count-based flag; the model is tied to the code by evaluating it inside Coq against the implementation's "
-              "outputs (bit-for-bit for frequencies) on generated matrices incl. all sizes with inexact reciprocals")
+              "outputs (bit-for-bit for frequencies) on generated matrices incl. all sizes with inexact reciprocals; every statistic and coding of both "
+              "classes is additionally computed in every memory layout the constructors accept (C, Fortran, transposed views, strided/offset views of "
+              "larger buffers, negative strides, read-only) through constructor, mat setter, copy/deepcopy, genotyping protocols, sort/reorder, and "
+              "compared bit-for-bit with the C-contiguous twin; results are overwritten in place to show that they alias neither the stored matrix nor a cache; "
+              "the kernel expressions of afreq/afixed/apoly/maf/gtcount/tafreq/gtfreq/meh and of the three codings are regenerated from the source")
 LEVEL_NOTE = ("trusted: Coq kernel + vm_compute, PrimFloat/Uint63 primitives and FloatAxioms specs, classical real axioms via Flocq; "
               "numpy integer sums/int->float conversion; meh and the {-1,m,1} coding compared within 2^-30 of the exact rational (BLAS summation order not modelled); "
               "theorems are about the Gallina model, the tie to the code is differential on generated inputs")
@@ -20,9 +24,18 @@ IMPORTS = "From Coq Require Import PrimFloat.\nFrom PV Require Import Lib.Common
 SHARD = 20
 RULE = ("case = (kind unphased|phased, ploidy, allele/dosage matrix); generated from one PRNG: sizes n in 1..130 plus the "
         "sizes where 1/(ploidy*n) is inexact (49,98,103,107,161,187,196,197), p in 1..8, columns forced to be fixed-0, fixed-1 "
-        "or polymorphic; non-trivial = at least one polymorphic and one fixed locus and n >= 2; distinct by SHA-256 of the case")
+        "or polymorphic; every case carries a memory layout (C|F|T|strided|strided_F|negstride|readonly|readonly_F) applied to the arrays handed to the "
+        "constructor / mat setter and optionally a route (structural operations, copies, genotyping protocols incl. masked ones, sort/reorder of taxa and "
+        "variants); run_impl recomputes all 43 statistic/dtype/coding observations in all 8 layouts x (constructor, setter, copy, deepcopy, unphased "
+        "projection) and compares with the C-contiguous twin, and overwrites every array result to detect aliasing; a block of cases has a "
+        "heterozygote at a marker of non-zero mean for every layout x layout-sensitive route; "
+        "non-trivial = at least one polymorphic and one fixed locus and n >= 2; distinct by SHA-256 of the case")
 TRUSTED = ["numpy integer summation and int64->float64 conversion are exact below 2^53 (modelled by PrimFloat.of_uint63)",
-           "meh uses BLAS dot / pairwise sum: compared in tolerance regime T (2^-30 relative) against the exact rational"]
+           "meh uses BLAS dot / pairwise sum: compared in tolerance regime T (2^-30 relative) against the exact rational",
+           "layouts: the Coq model has no notion of memory layout; layout independence is checked differentially (bit-for-bit against the C-contiguous "
+           "twin, which is the object compared with the model when the case's layout is C, and transitively otherwise)",
+           "mat_asformat: only the expressions `- 1`, `- 1.0`, `view == 0` are translated; the surrounding statements (format tests, per-column loop, "
+           "mean, masked write) are matched textually by the translator, which refuses any other shape of the function"]
 ASSUMPTIONS = ["dosages in 0..ploidy (unphased) / alleles in {0,1} (phased), int8 storage as the constructors require"]
 
 BAD_N = [49, 98, 103, 107, 161, 187, 196, 197]
@@ -68,7 +81,7 @@ def gen_cases(rng, tier):
             else:
                 mat = [[ploidy, 0, ploidy] for _ in range(n)]
                 mat[0][2] = ploidy - 1
-            cases.append({"kind": "phased" if phased else "unphased", "ploidy": ploidy, "mat": mat})
+            cases.append({"kind": "phased" if phased else "unphased", "ploidy": ploidy, "mat": mat, "layout": rng.choice(LAYOUTS)})
     # size-dependent paths (accumulator width, chunking): large populations, predicate only (see emit_case)
     for n, phased in ((20000, False), (17000, True)) if tier == "quick" else ((20000, False), (17000, True), (70000, False), (33000, True)):
         ploidy = 2
@@ -76,7 +89,7 @@ def gen_cases(rng, tier):
             mat = [[[1, 0, rng.randint(0, 1)] for _ in range(n)] for _ in range(ploidy)]
         else:
             mat = [[ploidy, 0, rng.randint(0, ploidy)] for _ in range(n)]
-        cases.append({"kind": "phased" if phased else "unphased", "ploidy": ploidy, "mat": mat, "big": True})
+        cases.append({"kind": "phased" if phased else "unphased", "ploidy": ploidy, "mat": mat, "big": True, "layout": rng.choice(LAYOUTS)})
     for _ in range(N):
         phased = rng.random() < 0.5
         n = rng.choice(sizes) if rng.random() < 0.7 else rng.randint(1, 12)
@@ -87,19 +100,71 @@ def gen_cases(rng, tier):
         # (the statistics must describe the matrix the object holds NOW: cached ploidy, stale shapes ... must not leak in)
         if rng.random() < 0.45:
             c["route"] = rng.choice(ROUTES_PHASED if phased else ROUTES_UNPHASED); c["rseed"] = rng.randrange(1 << 30)
+        # memory layout of every array handed to the constructor / the mat setter (the statistics of the SAME allele calls
+        # are additionally computed in every layout of LAYOUTS by run_impl and compared with the C-contiguous twin)
+        c["layout"] = rng.choice(LAYOUTS)
         cases.append(c)
     for phased in (False, True):                                  # every route at least twice per run
         for route in (ROUTES_PHASED if phased else ROUTES_UNPHASED):
             for ploidy in ((2, 3) if phased else (2, 4)):
                 n = rng.randint(2, 9); p = rng.randint(1, 5)
                 cases.append({"kind": "phased" if phased else "unphased", "ploidy": ploidy, "mat": _matrix(rng, n, p, ploidy, phased),
-                              "route": route, "rseed": rng.randrange(1 << 30)})
+                              "route": route, "rseed": rng.randrange(1 << 30), "layout": rng.choice(LAYOUTS)})
+    # every layout x every layout-sensitive route (the library's own ways to a Fortran-ordered / strided matrix) with a
+    # heterozygote at a marker of non-zero mean, so that a lost write of the {-1,m,1} substitution is visible
+    for phased in (False, True):
+        for layout in LAYOUTS:
+            for route in (("direct", "genotype_masked_phased", "sort_taxa", "copy") if phased else
+                          ("direct", "genotype", "genotype_masked", "genotype_masked_inv", "sort_vrnt", "deepcopy")):
+                ploidy = 2; n = rng.randint(3, 7); p = rng.randint(2, 4)
+                mat = _matrix(rng, n, p, ploidy, phased)
+                if phased:
+                    for i in range(n): mat[0][i][0], mat[1][i][0] = (1, 0) if i == 0 else (1, 1)
+                else:
+                    for i in range(n): mat[i][0] = 1 if i == 0 else 2
+                cases.append({"kind": "phased" if phased else "unphased", "ploidy": ploidy, "mat": mat, "route": route,
+                              "rseed": rng.randrange(1 << 30), "layout": layout})
     return cases
 
 ROUTES_PHASED = ("append_phase", "append_generic_phase", "remove_phase", "incorp_phase", "select_phase", "adjoin_phase", "append_taxa",
-                 "select_taxa", "remove_taxa", "mat_setter", "copy", "deepcopy")
+                 "select_taxa", "remove_taxa", "mat_setter", "copy", "deepcopy",
+                 "genotype_masked_phased", "reorder_taxa", "sort_taxa", "reorder_vrnt", "sort_vrnt")
 ROUTES_UNPHASED = ("append_taxa", "adjoin_taxa", "select_taxa", "delete_taxa", "remove_taxa", "insert_taxa", "concat_taxa", "select_vrnt",
-                   "adjoin_vrnt", "mat_setter", "copy", "deepcopy")
+                   "adjoin_vrnt", "mat_setter", "copy", "deepcopy",
+                   "genotype", "genotype_masked", "genotype_masked_inv", "reorder_taxa", "sort_taxa", "reorder_vrnt", "sort_vrnt")
+
+# memory layouts the constructors accept (they store the array object they are given, whatever its strides / flags)
+LAYOUTS = ("C", "F", "T", "strided", "strided_F", "negstride", "readonly", "readonly_F")
+
+def _lay(a, layout, r=None):
+    """the same values as `a` (int8) in the memory layout `layout`"""
+    a = numpy.asarray(a)
+    if layout == "C": return numpy.ascontiguousarray(a).copy()
+    if layout == "F": return numpy.asfortranarray(a).copy(order="F")
+    if layout == "T":
+        # a transposed VIEW of a C-ordered buffer (what from_vcf hands to the constructor: numpy.int8(mat).transpose(2,1,0));
+        # for 3 dimensions the axis permutation is drawn, so that layouts that are neither C- nor F-ordered occur
+        perms = [(1, 0)] if a.ndim == 2 else [(2, 1, 0), (1, 0, 2), (0, 2, 1), (1, 2, 0), (2, 0, 1)]
+        perm = perms[(r.randrange(len(perms)) if r is not None else 0)]
+        inv = tuple(perm.index(i) for i in range(a.ndim))
+        return numpy.array(a.transpose(perm), order="C").transpose(inv)       # (numpy.array copies: never a view of `a` itself)
+    if layout in ("strided", "strided_F"):
+        # a slice with steps (and offsets) of a larger buffer filled with an impossible allele value
+        steps = [(r.randint(2, 3) if r is not None else 2) for _ in a.shape]
+        offs = [(r.randint(0, 2) if r is not None else 1) for _ in a.shape]
+        shape = tuple(o + st * d + 1 for o, st, d in zip(offs, steps, a.shape))
+        buf = numpy.full(shape, 9, dtype=a.dtype, order="F" if layout == "strided_F" else "C")
+        ix = tuple(slice(o, o + st * d, st) for o, st, d in zip(offs, steps, a.shape))
+        buf[ix] = a
+        return buf[ix]
+    if layout == "negstride":
+        rev = tuple(slice(None, None, -1) for _ in a.shape)
+        return numpy.array(a[rev], order="C")[rev]
+    if layout in ("readonly", "readonly_F"):
+        b = numpy.array(a, order="F" if layout == "readonly_F" else "C")
+        b.flags.writeable = False
+        return b
+    raise ValueError(layout)
 
 def _build(case):
     """the genotype-matrix object holding case['mat'], obtained by the route of the case"""
@@ -108,9 +173,11 @@ def _build(case):
     from pybrops.popgen.gmat.DensePhasedGenotypeMatrix import DensePhasedGenotypeMatrix
     mat = numpy.array(case["mat"], dtype="int8")
     ph = case["kind"] == "phased"
-    mk = (lambda a: DensePhasedGenotypeMatrix(numpy.ascontiguousarray(a))) if ph else (lambda a: DenseGenotypeMatrix(numpy.ascontiguousarray(a), ploidy=case["ploidy"]))
     route = case.get("route", "direct")
     r = _random.Random(case.get("rseed", 0))
+    layout = case.get("layout", "C")
+    lay = lambda a: _lay(a, layout, r)
+    mk = (lambda a, **kw: DensePhasedGenotypeMatrix(lay(a), **kw)) if ph else (lambda a, **kw: DenseGenotypeMatrix(lay(a), ploidy=case["ploidy"], **kw))
     tax = 1 if ph else 0; vax = 2 if ph else 1
     n = mat.shape[tax]; p = mat.shape[vax]; m = mat.shape[0] if ph else None
     junk = lambda shape: numpy.array([r.randint(0, 1 if ph else case["ploidy"]) for _ in range(int(numpy.prod(shape)))], dtype="int8").reshape(shape)
@@ -121,7 +188,7 @@ def _build(case):
         shp = list(mat.shape)
         if ph: shp[0] = r.choice([1, 2, 3, 4])
         shp[tax] = r.randint(1, n + 2)
-        g = mk(junk(shp)); g.mat = mat.copy(); return g
+        g = mk(junk(shp)); g.mat = lay(mat); return g
     if route in ("append_phase", "append_generic_phase", "adjoin_phase") and m >= 2:
         k = r.randint(1, m - 1); g = mk(mat[:k])
         if route == "append_phase": g.append_phase(mat[k:].copy()); return g
@@ -162,6 +229,40 @@ def _build(case):
     if route == "adjoin_vrnt" and p >= 2:
         k = r.randint(1, p - 1)
         return mk(numpy.take(mat, range(k), axis=vax)).adjoin_vrnt(numpy.take(mat, range(k, p), axis=vax).copy())
+    # ---- the library's own routes to matrices that are not C-contiguous: genotyping protocols, sort / reorder
+    if route in ("genotype", "genotype_masked", "genotype_masked_inv") and not ph:
+        # a phased matrix (in the layout of the case) whose phase sum is `mat`, handed to the genotyping protocol
+        from pybrops.breed.prot.gt.DenseUnphasedGenotyping import DenseUnphasedGenotyping
+        from pybrops.breed.prot.gt.DenseMaskedUnphasedGenotyping import DenseMaskedUnphasedGenotyping
+        pl = case["ploidy"]
+        calls = numpy.zeros((pl, n, p), dtype="int8")
+        for i in range(n):
+            for j in range(p):
+                for k in r.sample(range(pl), int(mat[i, j])): calls[k, i, j] = 1
+        if route == "genotype":
+            return DenseUnphasedGenotyping().genotype(DensePhasedGenotypeMatrix(lay(calls)))
+        e = r.randint(1, 2); keep = [True] * p + [False] * e; r.shuffle(keep)
+        big = numpy.ones((pl, n, p + e), dtype="int8"); big[:, :, [j for j, k in enumerate(keep) if k]] = calls
+        inv = route == "genotype_masked_inv"
+        mask = numpy.array([k != inv for k in keep], dtype=bool)
+        return DenseMaskedUnphasedGenotyping(invert=inv).genotype(DensePhasedGenotypeMatrix(lay(big), vrnt_mask=mask))
+    if route == "genotype_masked_phased" and ph:
+        from pybrops.breed.prot.gt.DenseMaskedPhasedGenotyping import DenseMaskedPhasedGenotyping
+        e = r.randint(1, 2); keep = [True] * p + [False] * e; r.shuffle(keep)
+        big = numpy.ones((m, n, p + e), dtype="int8"); big[:, :, [j for j, k in enumerate(keep) if k]] = mat
+        return DenseMaskedPhasedGenotyping().genotype(DensePhasedGenotypeMatrix(lay(big), vrnt_mask=numpy.array(keep, dtype=bool)))
+    if route in ("reorder_taxa", "sort_taxa"):
+        perm = list(range(n)); r.shuffle(perm)
+        if route == "reorder_taxa":
+            g = mk(numpy.take(mat, perm, axis=tax)); g.reorder_taxa([perm.index(i) for i in range(n)]); return g
+        g = mk(numpy.take(mat, perm, axis=tax), taxa=numpy.array(["t%06d" % i for i in perm], dtype=object)); g.sort_taxa(); return g
+    if route in ("reorder_vrnt", "sort_vrnt"):
+        perm = list(range(p)); r.shuffle(perm)
+        if route == "reorder_vrnt":
+            g = mk(numpy.take(mat, perm, axis=vax)); g.reorder_vrnt([perm.index(j) for j in range(p)]); return g
+        g = mk(numpy.take(mat, perm, axis=vax), vrnt_chrgrp=numpy.array([1] * p, dtype="int64"),
+               vrnt_phypos=numpy.array([10 * j for j in perm], dtype="int64"))
+        g.sort_vrnt(); return g
     return mk(mat)
 
 def _reorder_phase(g, order):
@@ -176,13 +277,117 @@ def _hx(a):
     if a.ndim == 1: return [float(x).hex() for x in a]
     return [[float(x).hex() for x in r] for r in a]
 
+# every statistic / coding observed by the property, with its arguments: name -> (method, kwargs / args)
+SURVEY = ([(nm, nm, {}) for nm in ("tacount", "tafreq", "acount", "afreq", "afixed", "apoly", "maf", "meh", "gtcount", "gtfreq")] +
+          [("%s:%s" % (nm, dt), nm, {"dtype": dt}) for nm, dts in
+           (("tacount", ["int8", "float64"]), ("tafreq", ["float32"]), ("acount", ["int32", "float64"]), ("afreq", ["float32", "float64"]),
+            ("afixed", ["int64", "int8", "float64", "bool"]), ("apoly", ["int64", "int8", "float64", "bool"]), ("maf", ["float32"]),
+            ("meh", ["float32"]), ("gtcount", ["int32", "float64"]), ("gtfreq", ["float32"])) for dt in dts] +
+          [("mat_asformat:" + f, "mat_asformat", {"format": f}) for f in ("{0,1,2}", "{-1,0,1}", "{-1,m,1}")])
+
+def _sig(a):
+    """bit-exact, layout-independent signature of a result"""
+    a = numpy.asarray(a)
+    return (str(a.dtype), tuple(a.shape), numpy.ascontiguousarray(a).tobytes())
+
+def _survey(g, want_mat):
+    """every statistic and coding of g -> ({name: signature}, complaints).  Every array result is checked for aliasing:
+    it must not share memory with the stored matrix; it is then overwritten in place, after which the stored matrix must
+    be unchanged and a second call must return the first value again (no cache handed out, no view of the matrix)."""
+    res, bad = {}, []
+    if not (numpy.array_equal(g.mat, want_mat) and g.mat.dtype == want_mat.dtype):
+        bad.append("the object does not hold the intended matrix")
+    for key, meth, kw in SURVEY:
+        try:
+            r = getattr(g, meth)(**kw)
+        except Exception as e:                      # a layout-dependent failure is an observation, not the end of the survey
+            bad.append("%s: raised %s: %s" % (key, type(e).__name__, str(e)[:80]))
+            if not numpy.array_equal(g.mat, want_mat):
+                bad.append("%s: the failed call changed the stored matrix" % key)
+                return res, bad
+            continue
+        sig = _sig(r)
+        res[key] = sig
+        if isinstance(r, numpy.ndarray) and r.ndim > 0:
+            if numpy.may_share_memory(r, g.mat) and numpy.shares_memory(r, g.mat):
+                bad.append("%s: the result shares memory with the stored matrix" % key)
+            try:
+                r[...] = 77 if r.dtype != bool else ~r
+            except ValueError:
+                bad.append("%s: the result is not writeable" % key)
+            if not numpy.array_equal(g.mat, want_mat):
+                bad.append("%s: overwriting the result changed the stored matrix" % key)
+                return res, bad                       # the object is corrupted: nothing after this is meaningful
+            try:
+                again = _sig(getattr(g, meth)(**kw))
+            except Exception as e:
+                again = None; bad.append("%s: second call raised %s" % (key, type(e).__name__))
+            if again is not None and again != sig:
+                bad.append("%s: a second call differs after the first result was overwritten" % key)
+        if not numpy.array_equal(g.mat, want_mat):
+            bad.append("%s: the call changed the stored matrix" % key)
+            return res, bad
+    return res, bad
+
+def _layout_survey(case, mat):
+    """the statistics of the same allele calls in every memory layout the constructor accepts, through the constructor, the
+    mat setter, copy/deepcopy and (phased) the unphased projection: each compared bit-for-bit with the C-contiguous twin"""
+    import copy as _copy, random as _random
+    from pybrops.popgen.gmat.DenseGenotypeMatrix import DenseGenotypeMatrix
+    from pybrops.popgen.gmat.DensePhasedGenotypeMatrix import DensePhasedGenotypeMatrix
+    from pybrops.breed.prot.gt.DenseUnphasedGenotyping import DenseUnphasedGenotyping
+    ph = case["kind"] == "phased"
+    r = _random.Random(case.get("rseed", 0) + 12345)
+    mk = (lambda a: DensePhasedGenotypeMatrix(a)) if ph else (lambda a: DenseGenotypeMatrix(a, ploidy=case["ploidy"]))
+    ref, bad = _survey(mk(numpy.ascontiguousarray(mat).copy()), mat)
+    bad = ["layout C: " + b for b in bad]
+    uref = None
+    if ph:
+        dos = mat.sum(0, dtype="int8")
+        uref, ub = _survey(DenseGenotypeMatrix(numpy.ascontiguousarray(dos).copy(), ploidy=int(mat.shape[0])), dos)
+        bad += ["unphased twin: " + b for b in ub]
+    diffs = {}
+    def cmp(tag, got, gb, want):
+        for b in gb: bad.append("%s: %s" % (tag, b))
+        d = [k for k in want if k in got and got[k] != want[k]]        # (a survey cut short / a raising call is reported in `bad`)
+        if d: diffs[tag] = d
+    for layout in LAYOUTS:
+        if layout == "C": continue
+        big = case.get("big")
+        variants = [("ctor", lambda a: mk(a))]
+        if not big:
+            variants += [("setter", lambda a: _set(mk(numpy.zeros_like(mat)), a)), ("copy", lambda a: _copy.copy(mk(a))),
+                         ("deepcopy", lambda a: _copy.deepcopy(mk(a)))]
+        for vn, f in variants:
+            try:
+                g = f(_lay(mat, layout, r))
+            except Exception as e:
+                bad.append("layout %s/%s: the object could not be made: %s: %s" % (layout, vn, type(e).__name__, str(e)[:80])); continue
+            got, gb = _survey(g, mat)
+            cmp("layout %s/%s" % (layout, vn), got, gb, ref)
+            if ph and vn == "ctor":
+                try:
+                    u = DenseUnphasedGenotyping().genotype(g)
+                except Exception as e:
+                    bad.append("layout %s/projection: raised %s: %s" % (layout, type(e).__name__, str(e)[:80])); continue
+                got, gb = _survey(u, dos)
+                if int(u.ploidy) != int(mat.shape[0]): gb.append("ploidy of the projection")
+                cmp("layout %s/projection" % layout, got, gb, uref)
+    return {"diffs": diffs, "bad": bad[:12], "ref": ref, "uref": uref}
+
+def _set(g, a):
+    g.mat = a
+    return g
+
 def run_impl(case):
     from pybrops.popgen.gmat.DenseGenotypeMatrix import DenseGenotypeMatrix
     from pybrops.popgen.gmat.DensePhasedGenotypeMatrix import DensePhasedGenotypeMatrix
     mat = numpy.array(case["mat"], dtype="int8")
     g = _build(case)
+    f = g.mat.flags
+    out_flags = {"c": bool(f["C_CONTIGUOUS"]), "f": bool(f["F_CONTIGUOUS"]), "w": bool(f["WRITEABLE"]), "own": g.mat.base is None}
     before = mat.copy()
-    out = {}
+    out = {"flags": out_flags}
     out["route_ok"] = bool(numpy.array_equal(g.mat, mat)) and g.mat.dtype == mat.dtype
     out["ploidy"] = int(g.ploidy)
     out["tacount"] = g.tacount().tolist()
@@ -215,6 +420,13 @@ def run_impl(case):
             dv["%s:%s" % (name, dt)] = {"dtype": str(a.dtype), "val": _hx(a.astype(float))}
     out["dtypes"] = dv
     out["unchanged"] = bool(numpy.array_equal(g.mat, before))
+    # the object of the case (its layout, its route) and every other layout against the C-contiguous twin; aliasing of results
+    ls = _layout_survey(case, mat)
+    mine, mb = _survey(g, mat)
+    ls["bad"] = (["object of the case: " + b for b in mb] + ls["bad"])[:12]
+    d = [k for k in ls["ref"] if k in mine and mine[k] != ls["ref"][k]]
+    if d: ls["diffs"]["object of the case (layout %s, route %s)" % (case.get("layout", "C"), case.get("route", "direct"))] = d
+    out["layouts"] = {"diffs": ls["diffs"], "bad": ls["bad"], "n": len(LAYOUTS)}
     if case["kind"] == "phased":
         # the unphased projection of the same data must give identical answers
         from pybrops.breed.prot.gt.DenseUnphasedGenotyping import DenseUnphasedGenotyping
@@ -223,6 +435,10 @@ def run_impl(case):
         out["proj"] = {"acount": [int(x) for x in u.acount()], "afreq": _hx(u.afreq()), "afixed": [bool(x) for x in u.afixed()],
                        "apoly": [bool(x) for x in u.apoly()], "maf": _hx(u.maf()), "meh": float(u.meh()).hex(),
                        "gtcount": u.gtcount().tolist(), "tacount": u.tacount().tolist()}
+        # ... for EVERY statistic and coding (bit-for-bit; meh is summed differently by the two classes: see pred)
+        got, gb = _survey(u, mat.sum(0, dtype="int8"))
+        out["proj_all"] = {"diffs": [k for k in ls["uref"] if got.get(k) != ls["uref"][k]], "bad": gb[:6],
+                           "vs_phased": [k for k in mine if not k.startswith("meh") and got.get(k) != mine[k]]}
     return out
 
 def _fh(h): return float.fromhex(h)
@@ -358,12 +574,25 @@ def pred(case, out):
         elif not close(got, want[name], 1e-6 if dt == "float32" else 0.0):
             bad.append("%s(dtype=%s) is not the definition cast to %s" % (name, dt, dt))
     if not out["unchanged"]: bad.append("matrix mutated by a summary statistic")
+    # memory layouts / aliasing: every statistic and coding in every layout equals the C-contiguous twin's, bit for bit
+    ly = out.get("layouts")
+    if ly is None: bad.append("layout survey missing")
+    else:
+        for b in ly["bad"][:4]: bad.append("aliasing/layout: " + b)
+        for tag, names in sorted(ly["diffs"].items()):
+            bad.append("%s: %s differ(s) from the C-contiguous twin of the same allele calls" % (tag, ", ".join(names[:4])))
     if "proj" in out:
         pj = out["proj"]
         if not out.get("proj_mat_ok", True): bad.append("DenseUnphasedGenotyping projection is not the phase sum / ploidy changed")
         for k in ("acount", "afreq", "afixed", "apoly", "maf", "gtcount", "tacount"):
             if pj[k] != out[k]: bad.append("phased and unphased projection disagree on %s" % k)
         if abs(_fh(pj["meh"]) - _fh(out["meh"])) > 1e-12: bad.append("phased and unphased projection disagree on meh")
+        pa = out.get("proj_all")
+        if pa is None: bad.append("projection survey missing")
+        else:
+            if pa["diffs"]: bad.append("projection of the object of the case: %s differ(s) from a C-contiguous unphased matrix of the same dosages" % ", ".join(pa["diffs"][:4]))
+            if pa["vs_phased"]: bad.append("phased matrix and its unphased projection disagree on %s" % ", ".join(pa["vs_phased"][:4]))
+            for b in pa["bad"]: bad.append("aliasing/layout (projection): " + b)
     # deduplicate, keep short
     seen = []
     for b in bad:
@@ -383,7 +612,9 @@ def describe(case, out):
     n = dos.shape[0]
     return {"kind": case["kind"], "ploidy": case["ploidy"], "ntaxa_bucket": "inexact-reciprocal" if n * case["ploidy"] in
             (49, 98, 103, 107, 161, 187, 196, 197, 206, 214, 322, 374, 392, 394) else ("1" if n == 1 else ("2-12" if n <= 12 else "13-130")),
-            "nloci": dos.shape[1], "raised": "exc" in out, "route": case.get("route", "direct")}
+            "nloci": dos.shape[1], "raised": "exc" in out, "route": case.get("route", "direct"), "layout": case.get("layout", "C"),
+            "stored": "?" if "flags" not in out else ("C" if out["flags"]["c"] else ("F" if out["flags"]["f"] else "strided")) +
+                      ("" if out["flags"]["w"] else "-readonly")}
 
 def classify(case, out, clauses):
     return None
@@ -405,6 +636,34 @@ def shrink(case, fails):
 
 
 def translate(repo, gen_dir):
-    """regenerate Gen/C09_Kernel.v (kernel expressions of afreq/afixed/apoly/maf/gtcount) from the current source; fail closed"""
+    """regenerate Gen/C09_Kernel.v (kernel expressions of afreq/afixed/apoly/maf/gtcount/tafreq/gtfreq/meh and of the three
+    mat_asformat branches, both classes) from the current source; fail closed"""
     from translate import c09_kernel
+    _entry_points(repo)
     return [c09_kernel.translate(repo, gen_dir)]
+
+# public methods of the two classes that are statistics / codings but deliberately not surveyed (name -> reason)
+SKIPPED = {}
+
+def _entry_points(repo):
+    """fail closed: every public method of the two matrix classes that takes a `dtype` or a `format` argument (the shape of a
+    summary statistic / coding) must be one of the surveyed observations or be listed in SKIPPED with a reason"""
+    import ast
+    from translate import pyexpr as P
+    covered = {meth for _, meth, _ in SURVEY}
+    seen = set()
+    for rel, cls in (("pybrops/popgen/gmat/DenseGenotypeMatrix.py", "DenseGenotypeMatrix"),
+                     ("pybrops/popgen/gmat/DensePhasedGenotypeMatrix.py", "DensePhasedGenotypeMatrix")):
+        for node in P.parse_file(repo, rel).body:
+            if isinstance(node, ast.ClassDef) and node.name == cls:
+                for fn in node.body:
+                    if isinstance(fn, ast.FunctionDef) and not fn.name.startswith("_"):
+                        args = {a.arg for a in fn.args.args + fn.args.kwonlyargs}
+                        if args & {"dtype", "format"}:
+                            seen.add(fn.name)
+                            if fn.name not in covered and fn.name not in SKIPPED:
+                                raise P.Untranslatable("%s.%s takes a dtype/format argument but is not among the surveyed statistics: "
+                                                       "add it to SURVEY (and to pred) or to SKIPPED with a reason" % (cls, fn.name))
+    missing = covered - seen
+    if missing:
+        raise P.Untranslatable("surveyed statistics no longer defined by the classes: %s" % sorted(missing))
